@@ -191,7 +191,9 @@ class TaskExpression(ApplyExpression[Result]):
             "args": registry.serialize(self.args),
             "kwargs": registry.serialize(self.kwargs),
             "task_options": self._options,
-            "export_options": self._export_options,
+            # Sorted, so that the pickled form (and the hash of a container holding this expression)
+            # does not follow set iteration order. The empty case keeps its historical encoding.
+            "export_options": sorted(self._export_options) if self._export_options else set(),
             "length": self._length,
         }
 
@@ -202,7 +204,7 @@ class TaskExpression(ApplyExpression[Result]):
         self.args = registry.deserialize("builtins.tuple", state["args"])
         self.kwargs = registry.deserialize("builtins.dict", state["kwargs"])
         self._options = state.get("task_options", {})
-        self._export_options = state.get("export_options", set())
+        self._export_options = set(state.get("export_options", ()))
         self._upstreams = [self.args, self.kwargs]
         self._length = state.get("length", None)
 
